@@ -35,6 +35,18 @@
 (* and the late answer is then dropped as an orphan.                         *)
 (*   connection.py  Connection.get_request_id, process_msg   (NextId, Release) *)
 (*                                                                           *)
+(* Speculative execution.  cfg.spec = 1: the bound statement is idempotent    *)
+(* and the profile has a ConstantSpeculativeExecutionPolicy(max_attempts=1): *)
+(* the first timer of the future is _on_speculative_execute (SpecExec), which *)
+(* sends the request to the next host of the plan while the first attempt is *)
+(* still unanswered, then arms the client timeout.  Two EXECUTEs of the same  *)
+(* request are then in flight on different nodes, ResponseFuture._current_host *)
+(* / _connection name the LAST node queried - not the node whose answer is    *)
+(* being handled.  The re-preparation belongs to the node that answered       *)
+(* UNPREPARED (the `host` handed from _set_result to _reprepare and on to     *)
+(* _execute_after_prepare), whatever the future queried last.                 *)
+(*   cluster.py  ResponseFuture._start_timer, _on_speculative_execute (SpecExec) *)
+(*                                                                           *)
 (* The module describes the behaviour the property demands.  Where the       *)
 (* pinned code deviates this is said at the action (see RunAfter, "diff").   *)
 EXTENDS Integers, Sequences, FiniteSets, TLC
@@ -55,15 +67,19 @@ VARIABLES cfg,     \* [pv: protocol version, sks: keyspace of the statement, cks
           final,   \* "unset" | "rows" | name of the exception class the future failed with
           pool,    \* per host: "ok" | "shutdown" | "noconn"  (can a connection be borrowed?)
           unprep,  \* UNPREPARED answers so far
-          timer,   \* "none" | "armed" | "off"   (client request timeout)
+          timer,   \* "none" | "spec" (next: speculative execution) | "armed" (next: client timeout) | "off"
           free,    \* per host: Connection.request_ids (FIFO of reusable stream ids), when cfg.ids # 0
           hi,      \* per host: Connection.highest_request_id
           rid,     \* ResponseFuture._req_id: stream id of the last request sent by send_request (-1: none / not observed)
+          ridn,    \* index in `sent` of the frame that id was given to (0: none)
+          lc,      \* host of ResponseFuture._connection: the connection borrowed last ("-": none)
           stop,    \* ghost: Len(sent) when the request failed with id mismatch / keyspace mismatch, else -1
           act      \* last action
-vars == <<cfg, plan, sent, srv, queue, final, pool, unprep, timer, free, hi, rid, stop, act>>
+vars == <<cfg, plan, sent, srv, queue, final, pool, unprep, timer, free, hi, rid, ridn, lc, stop, act>>
 
-Configs == [pv : {4, 5}, sks : {"none", "ks"}, cks : {"none", "ks", "ks2"}, ids : {0, 1, 2}]
+\* (speculative executions are explored with the connection keyspace "ks" and the id spaces 0 / 1 only)
+Configs == {c \in [pv : {4, 5}, sks : {"none", "ks"}, cks : {"none", "ks", "ks2"}, ids : {0, 1, 2}, spec : {0, 1}] :
+                c.spec = 1 => (c.cks = "ks" /\ c.ids \in {0, 1})}
 
 Exec(h) == [h |-> h, kind |-> "EXECUTE", q |-> "id", ks |-> "none"]
 \* same query text; the keyspace travels in the PREPARE iff the protocol carries it (v5)
@@ -71,6 +87,9 @@ Prep(h) == [h |-> h, kind |-> "PREPARE", q |-> "Q", ks |-> IF cfg.pv >= 5 THEN c
 
 A(name, h, resp) == [name |-> name, h |-> h, resp |-> resp, was |-> final, n |-> Len(sent), pok |-> TRUE]
 Failed == final \notin {"unset", "rows"}
+\* _set_final_result / _set_final_exception complete the future once; later completions (the request was answered through
+\* a speculative execution meanwhile) change nothing
+Fin(x) == IF final = "unset" THEN x ELSE final
 
 RECURSIVE FirstUsable(_)
 FirstUsable(p) == IF p = <<>> THEN 0
@@ -88,26 +107,28 @@ SendTo(h, msg) ==
     /\ srv' = srv \cup {[h |-> h, kind |-> msg.kind, n |-> Len(sent) + 1, sid |-> sid, live |-> TRUE]}
     /\ free' = IF cfg.ids = 0 \/ free[h] = <<>> THEN free ELSE [free EXCEPT ![h] = Tail(@)]
     /\ hi' = IF cfg.ids # 0 /\ free[h] = <<>> THEN [hi EXCEPT ![h] = @ + 1] ELSE hi
-NoSend == UNCHANGED <<sent, srv, free, hi>>
+    /\ lc' = h
+NoSend == UNCHANGED <<sent, srv, free, hi, lc>>
 
 (* Connection.process_msg: the answered stream id goes back to the end of the deque *)
 Answered(r) ==
     /\ srv' = srv \ {r}
     /\ free' = IF cfg.ids = 0 THEN free ELSE [free EXCEPT ![r.h] = Append(@, r.sid)]
-    /\ UNCHANGED <<sent, hi, rid>>
+    /\ UNCHANGED <<sent, hi, rid, ridn, lc>>
 
 (* ResponseFuture.send_request: next host of the plan whose pool yields a connection, else NoHostAvailable *)
 SendRequest ==
     LET k == FirstUsable(plan) IN
     IF k = 0
     THEN /\ plan' = <<>>
-         /\ final' = "NoHostAvailable"
+         /\ final' = Fin("NoHostAvailable")
          /\ timer' = "off"
          /\ NoSend
-         /\ UNCHANGED rid
+         /\ UNCHANGED <<rid, ridn>>
     ELSE /\ plan' = SubSeq(plan, k + 1, Len(plan))
          /\ SendTo(plan[k], Exec(plan[k]))
          /\ rid' = NextId(plan[k])                      \* self._req_id = req_id
+         /\ ridn' = Len(sent) + 1
          /\ UNCHANGED <<final, timer>>
 
 InitWith(c) ==
@@ -120,13 +141,27 @@ InitWith(c) ==
     /\ timer = "none"
     /\ free = [h \in HostSet |-> [i \in 1..c.ids |-> i - 1]]
     /\ hi = [h \in HostSet |-> c.ids - 1]
-    /\ rid = -1
+    /\ rid = -1 /\ ridn = 0 /\ lc = "-"
     /\ stop = -1
     /\ act = [name |-> "Init", h |-> "-", resp |-> "-", was |-> "unset", n |-> 0, pok |-> TRUE]
 
 Init == \E c \in Configs : InitWith(c)
 
 (* session.execute_async(bound statement) *)
+(* ResponseFuture._on_speculative_execute (loop thread): the request goes to the next host of the plan that can take it *)
+(* (none: nothing is sent and nothing fails), the client timeout is armed                                             *)
+SpecExec ==
+    /\ timer = "spec" /\ final = "unset"
+    /\ LET k == FirstUsable(plan) IN
+       IF k = 0 THEN plan' = <<>> /\ NoSend /\ UNCHANGED <<rid, ridn>>
+       ELSE /\ plan' = SubSeq(plan, k + 1, Len(plan))
+            /\ SendTo(plan[k], Exec(plan[k]))
+            /\ rid' = NextId(plan[k])
+            /\ ridn' = Len(sent) + 1
+    /\ timer' = "armed"
+    /\ act' = A("SpecExec", "-", "-")
+    /\ UNCHANGED <<cfg, queue, final, pool, unprep, stop>>
+
 Start ==
     /\ sent = <<>> /\ final = "unset" /\ timer = "none"
     /\ LET k == FirstUsable(plan) IN
@@ -134,7 +169,8 @@ Start ==
        /\ plan' = SubSeq(plan, k + 1, Len(plan))
        /\ SendTo(plan[k], Exec(plan[k]))
        /\ rid' = NextId(plan[k])
-    /\ timer' = "armed"
+       /\ ridn' = Len(sent) + 1
+    /\ timer' = IF cfg.spec = 1 THEN "spec" ELSE "armed"                  \* _start_timer
     /\ act' = A("Start", "-", "-")
     /\ UNCHANGED <<cfg, queue, final, pool, unprep, stop>>
 
@@ -143,13 +179,15 @@ AnsUnprepared(r) ==
     /\ r \in srv /\ r.kind = "EXECUTE"
     /\ unprep < MaxUnprep
     /\ ~Failed
+    \* scope: one re-preparation at a time - while one is under way the other attempt in flight is not answered UNPREPARED
+    /\ queue = <<>> /\ \A x \in srv : x.kind # "PREPARE"
     /\ Answered(r)
     /\ unprep' = unprep + 1
     /\ IF cfg.pv < 5 /\ cfg.sks # "none" /\ cfg.cks # cfg.sks
        THEN \* the protocol cannot carry the keyspace and the connection is in another one: ValueError, nothing sent
-            /\ final' = "ValueError"
+            /\ final' = Fin("ValueError")
             /\ timer' = "off"
-            /\ stop' = Len(sent)
+            /\ stop' = IF final = "unset" THEN Len(sent) ELSE stop
             /\ UNCHANGED queue
        ELSE /\ queue' = Append(queue, [t |-> "reprepare", h |-> r.h, resp |-> "-"])
             /\ UNCHANGED <<final, timer, stop>>
@@ -161,7 +199,7 @@ AnsRows(r) ==
     /\ r \in srv /\ r.kind = "EXECUTE"
     /\ ~Failed
     /\ Answered(r)
-    /\ final' = "rows"
+    /\ final' = Fin("rows")
     /\ timer' = "off"
     /\ act' = A("AnsRows", r.h, "-")
     /\ UNCHANGED <<cfg, plan, queue, pool, unprep, stop>>
@@ -171,8 +209,8 @@ RunReprepare ==
     /\ queue # <<>> /\ Head(queue).t = "reprepare"
     /\ LET h == Head(queue).h IN
        /\ IF pool[h] = "ok"
-          THEN /\ SendTo(h, Prep(h))
-               /\ UNCHANGED <<plan, final, timer, rid>>
+          THEN /\ SendTo(h, Prep(h))                 \* the node that answered UNPREPARED, whatever was queried since
+               /\ UNCHANGED <<plan, final, timer, rid, ridn>>
           ELSE SendRequest                          \* no connection to that host: original request to the next host
        /\ act' = [A("RunReprepare", h, "-") EXCEPT !.pok = (pool[h] = "ok")]
     /\ queue' = Tail(queue)
@@ -195,7 +233,7 @@ ConnLost(h) ==
     /\ queue' = Append(queue, [t |-> "after", h |-> h, resp |-> "connerr"])
     /\ pool' = [pool EXCEPT ![h] = "noconn"]
     /\ act' = A("ConnLost", h, "-")
-    /\ UNCHANGED <<cfg, plan, sent, final, unprep, timer, free, hi, rid, stop>>
+    /\ UNCHANGED <<cfg, plan, sent, final, unprep, timer, free, hi, rid, ridn, lc, stop>>
 
 (* the host's pool is shut down while one of the two hops is pending *)
 PoolDown(h) ==
@@ -204,7 +242,7 @@ PoolDown(h) ==
     /\ \A r \in srv : r.h # h
     /\ pool' = [pool EXCEPT ![h] = "shutdown"]
     /\ act' = A("PoolDown", h, "-")
-    /\ UNCHANGED <<cfg, plan, sent, srv, queue, final, unprep, timer, free, hi, rid, stop>>
+    /\ UNCHANGED <<cfg, plan, sent, srv, queue, final, unprep, timer, free, hi, rid, ridn, lc, stop>>
 
 (* executor: ResponseFuture._execute_after_prepare *)
 RunAfter ==
@@ -212,24 +250,24 @@ RunAfter ==
     /\ LET h == Head(queue).h
            resp == Head(queue).resp IN
        /\ IF Failed
-          THEN NoSend /\ UNCHANGED <<plan, final, timer, rid, stop>>          \* e.g. timed out meanwhile: nothing more
+          THEN NoSend /\ UNCHANGED <<plan, final, timer, rid, ridn, stop>>    \* e.g. timed out meanwhile: nothing more
           ELSE CASE resp = "same" ->
                         /\ IF pool[h] = "ok"
-                           THEN SendTo(h, Exec(h)) /\ UNCHANGED <<plan, final, timer, rid>>  \* original request, same host,
+                           THEN SendTo(h, Exec(h)) /\ UNCHANGED <<plan, final, timer, rid, ridn>>  \* original request, same host,
                                                                                             \* whatever stream id it is given
                            ELSE SendRequest
                         /\ UNCHANGED stop
                  [] resp = "diff" ->
                         \* DriverException("ID mismatch ..."); the request has failed, nothing further is sent.
                         \* (The pinned code sets the exception but falls through to self._query(host).)
-                        /\ final' = "DriverException"
+                        /\ final' = Fin("DriverException")
                         /\ timer' = "off"
-                        /\ stop' = Len(sent)
-                        /\ NoSend /\ UNCHANGED <<plan, rid>>
+                        /\ stop' = IF final = "unset" THEN Len(sent) ELSE stop
+                        /\ NoSend /\ UNCHANGED <<plan, rid, ridn>>
                  [] resp = "error" ->
-                        /\ final' = "InvalidRequest"                          \* the server's error surfaces
+                        /\ final' = Fin("InvalidRequest")                     \* the server's error surfaces
                         /\ timer' = "off"
-                        /\ NoSend /\ UNCHANGED <<plan, rid, stop>>
+                        /\ NoSend /\ UNCHANGED <<plan, rid, ridn, stop>>
                  [] resp = "connerr" ->
                         /\ SendRequest                                        \* original request to the next host of the plan
                         /\ UNCHANGED stop
@@ -243,14 +281,16 @@ Timeout ==
     /\ \E r \in srv : r.kind = "PREPARE"
     /\ final' = "OperationTimedOut"
     /\ timer' = "off"
-    \* self._connection._requests.pop(self._req_id): _req_id is the id of the last EXECUTE sent by send_request; when
-    \* the PREPARE travels under the same id (tiny id space) it is the PREPARE's handler that goes
-    /\ srv' = {IF cfg.ids # 0 /\ r.kind = "PREPARE" /\ r.sid = rid THEN [r EXCEPT !.live = FALSE] ELSE r : r \in srv}
+    \* _on_timeout removes what this future registered on self._connection under self._req_id: the frame send_request
+    \* sent last, if it is still unanswered and that connection was the last one borrowed - and, in a tiny id space,
+    \* whatever other frame of this future travels on that connection under the same id (the PREPARE)
+    /\ srv' = {IF r.h = lc /\ (r.n = ridn \/ (cfg.ids # 0 /\ r.sid = rid)) THEN [r EXCEPT !.live = FALSE] ELSE r : r \in srv}
     /\ act' = A("Timeout", "-", "-")
-    /\ UNCHANGED <<cfg, plan, sent, queue, pool, unprep, free, hi, rid, stop>>
+    /\ UNCHANGED <<cfg, plan, sent, queue, pool, unprep, free, hi, rid, ridn, lc, stop>>
 
 Next ==
     \/ Start
+    \/ SpecExec
     \/ \E r \in srv : AnsUnprepared(r)
     \/ \E r \in srv : AnsRows(r)
     \/ \E r \in srv, k \in {"same", "diff", "error"} : AnsPrepare(r, k)
@@ -270,27 +310,31 @@ Preps == {i \in 1..Len(sent) : sent[i].kind = "PREPARE"}
 TypeOK ==
     /\ cfg \in Configs
     /\ final \in {"unset", "rows", "ValueError", "DriverException", "InvalidRequest", "OperationTimedOut", "NoHostAvailable"}
-    /\ Cardinality(srv) <= 1
+    /\ Cardinality(srv) <= 1 + cfg.spec
     /\ Len(queue) <= 1
 
-\* the PREPARE names the same query text, carries the keyspace iff the protocol can, and goes to the node
-\* that has just been sent the EXECUTE it answered with UNPREPARED
+Execs == {i \in 1..Len(sent) : sent[i].kind = "EXECUTE"}
+To(S, h) == {i \in S : sent[i].h = h}
+
+\* the PREPARE names the same query text, carries the keyspace iff the protocol can, and goes to a node that has been
+\* sent the EXECUTE before
 PrepareWellFormed ==
     \A i \in Preps : /\ sent[i].q = "Q"
                      /\ sent[i].ks = (IF cfg.pv >= 5 THEN cfg.sks ELSE "none")
-                     /\ i > 1 /\ sent[i - 1].kind = "EXECUTE" /\ sent[i - 1].h = sent[i].h
+                     /\ \E j \in Execs : j < i /\ sent[j].h = sent[i].h
+\* ... namely to the node that answered UNPREPARED, whatever node the future queried last (a speculative execution)
+PrepareOnAnsweringNode ==
+    (act.name = "RunReprepare" /\ act.pok) => (Len(sent) = act.n + 1 /\ Base(Last(sent)) = Prep(act.h))
 
 \* exactly one PREPARE per UNPREPARED answer that is acted upon
 OnePreparePerUnprepared == Cardinality(Preps) <= unprep
 
-\* what may follow what in the send log
+\* what may follow what in the send log: the request goes through the plan in order; a node gets it a second time only
+\* after it has been re-prepared, once per PREPARE
 SendOrder ==
-    \A i \in 2..Len(sent) :
-        LET a == sent[i - 1]
-            b == sent[i] IN
-        IF b.kind = "PREPARE" THEN a.kind = "EXECUTE" /\ a.h = b.h
-        ELSE IF a.kind = "PREPARE" THEN a.h = b.h \/ Pos(b.h) > Pos(a.h)    \* re-sent to the same host, or on to a later host
-        ELSE Pos(b.h) > Pos(a.h)                                            \* never twice to a host without a PREPARE between
+    /\ \A j \in Execs : \/ \A i \in Execs : i < j => Pos(sent[i].h) < Pos(sent[j].h)
+                         \/ \E k \in Preps : k < j /\ sent[k].h = sent[j].h
+    /\ \A h \in HostSet : Cardinality(To(Execs, h)) <= 1 + Cardinality(To(Preps, h))
 
 \* once re-preparing succeeded the original request is re-sent, exactly once, to the same host
 ResentOnSuccess ==
@@ -316,7 +360,7 @@ LossMovesOn ==
 MismatchStops ==
     stop >= 0 => /\ Len(sent) = stop
                  /\ final \in {"ValueError", "DriverException"}
-                 /\ srv = {} /\ queue = <<>>
+                 /\ queue = <<>> /\ \A r \in srv : r.kind = "EXECUTE"     \* (a speculative execution may be left unanswered)
 
 KeyspaceRule ==
     /\ final = "ValueError" => (cfg.pv < 5 /\ cfg.sks # "none" /\ cfg.cks # cfg.sks)
@@ -339,5 +383,8 @@ Witness_V5Keyspace == \A i \in Preps : sent[i].ks # "ks"
 Witness_ResendOnStreamZero == ~(act.name = "RunAfter" /\ act.resp = "same" /\ act.was = "unset" /\ Len(sent) = act.n + 1
                                 /\ Last(sent).kind = "EXECUTE" /\ Last(sent).sid = 0 /\ Len(plan) >= 1)
 Witness_TimeoutTakesPrepareHandler == \A r \in srv : r.live
+Witness_ReprepareBehindSpeculation == ~(act.name = "RunReprepare" /\ act.pok /\ Len(sent) >= 3
+                                        /\ sent[Len(sent) - 1].kind = "EXECUTE" /\ sent[Len(sent) - 1].h # act.h)
+Witness_SpeculativeAnswered == ~(final = "rows" /\ Cardinality(Execs) >= 2 /\ Preps = {} /\ srv # {})
 Witness_PoolDownBeforePrepare == ~(act.name = "RunReprepare" /\ ~act.pok /\ Len(sent) = act.n + 1)
 =============================================================================
